@@ -20,7 +20,7 @@ import os
 from hypothesis import strategies as st
 
 from vf import runner
-from vf.engine import Case, Failure, h, live_first
+from vf.engine import Case, Failure, h, live_first, deviation_sets
 from vf.oracle import c18_placement as model
 from vf.project import Project, to_yaml
 
@@ -45,11 +45,11 @@ ASSUMPTIONS = [
 ]
 BUDGET_S = {"quick": 100, "thorough": 1300}
 
-KEYS = ["src", "src/api", "src/api/v1", "tests", "lib"]
-PATTERNS = [r".*\.py$", r"^test_.*", r"test_.*\.py$", r".*\.(ts|tsx)$", r"^src/", r"[A-Z].*", r".*_api\.py$"]
+KEYS = ["src", "src/api", "src/api/v1", "tests", "lib", ".github"]
+PATTERNS = [r".*\.py$", r"^test_.*", r"test_.*\.py$", r".*\.(ts|tsx)$", r"^src/", r"[A-Z].*", r".*_api\.py$", r"^\.", r"^\.github/.*\.md$"]
 INVALID = ["(", "[a-", "*.py"]
-DIRS = ["", "src/", "src/api/", "src/api/v1/", "src/apix/", "srcx/", "tests/", "lib/x/", "other/"]
-NAMES = ["a.py", "test_a.py", "user_api.py", "B.tsx", "Readme.md"]
+DIRS = ["", "src/", "src/api/", "src/api/v1/", "src/apix/", "srcx/", "tests/", "lib/x/", "other/", ".github/", ".github/wf/", "..d/", "github/"]
+NAMES = ["a.py", "test_a.py", "user_api.py", "B.tsx", "Readme.md", ".env"]
 ALL_FILES = [d + n for d in DIRS for n in NAMES]
 CARRIER_FILES = {".thailint.yaml", "fp-rules.json", "fp-rules.yaml"}
 
@@ -287,12 +287,9 @@ def check(case) -> Case:
     if wrong:
         explained = None
         app = [d for d in DEVIATIONS if d != "relative-path-as-given" or inv["mode"] == "subdir"]
-        for n in range(1, len(app) + 1):
-            for devs in itertools.combinations(app, n):
-                if all(model.verdict(cfg, f, devs, judged.get(f))[0] == observed[f] for f in universe):
-                    explained = devs
-                    break
-            if explained:
+        for devs in deviation_sets("C18", app):
+            if all(model.verdict(cfg, f, devs, judged.get(f))[0] == observed[f] for f in universe):
+                explained = devs
                 break
         f0 = wrong[0]
         detail = {**detail0, "mismatches": [{"file": f, "expected_reported": spec[f][0], "deciding_clause": spec[f][1], "observed_violations": reported.get(f, [])} for f in wrong[:6]]}
